@@ -69,6 +69,25 @@ namespace vh
         else out.tok("ERR bad-dtype");
     }
 
+    // float only (call forms whose compile cost is high)
+    template <typename F>
+    void with_f(Args& in, Out& out, F&& f)
+    {
+        auto t = in.s();
+        if (t == "f") f(float{});
+        else out.tok("ERR bad-dtype");
+    }
+
+    // int32 and float
+    template <typename F>
+    void with_if(Args& in, Out& out, F&& f)
+    {
+        auto t = in.s();
+        if (t == "i") f(int{});
+        else if (t == "f") f(float{});
+        else out.tok("ERR bad-dtype");
+    }
+
     // emit_view_all + (for results that are arrays of dimension 0) the single element read with an empty index:
     //   ... X0 <tag> <value>
     template <typename view_t>
